@@ -19,6 +19,14 @@ Requests (`-` = absent bound; an lvalue step is `i=<v>` or `r=<lo>;<hi>`):
   upd <s> <k> <v>        s |.. [k, v]
   popp <s> <step>…       x := s; r := pop x<steps>; [r, x]
   rmip <s> <i> <step>…   x := s; r := remove x<steps>[i]; [r, x]
+State-observing forms (the write runs under try/catch, `y` is an alias taken before it; response
+`[r,x,y]` with r = 1 / `[1,result]` on success, 0 when it raised; the Impl prints `corrupted` for x
+when the string arm reports "string corrupted"):
+  tset / tevery <s> <v> <step>…     x = s; y = x; r = try (x<steps> = v; 1) catch _ -> 0; [r, x, y]
+  taddat <s> <i> <d>                … x[i] += d …
+  tpopp <s> <step>…                 … r = try [1, pop x<steps>] catch _ -> 0 …
+  trmip <s> <i> <step>…             … r = try [1, remove x<steps>[i]] catch _ -> 0 …
+  tswap / tswap2 <s> <i> <yv>       x = s; y = yv; r = try (swap x[i], y; 1) …  /  swap y, x[i]
 Response: `<impl>\t<spec>`. -/
 import NoulithModel.Spec.PyIndex
 
@@ -128,8 +136,67 @@ def steps? : List String → Option (List Ix)
 def both (i s : Out Val) : String := i.render render ++ "\t" ++ s.render render
 def bothP (i s : Out (Val × Val)) : String := i.render renderPair ++ "\t" ++ s.render renderPair
 
+def triple (r x y : String) : String := "ok [" ++ r ++ "," ++ x ++ "," ++ y ++ "]"
+
+def implW (w : Val × WEnd) (y : Val) : String :=
+  triple (if w.2.isDone then "1" else "0") (if w.2 = .corrupted then "corrupted" else render w.1) (render y)
+def specW (w : Val × Bool) (y : Val) : String :=
+  triple (if w.2 then "1" else "0") (render w.1) (render y)
+def resM (w : Val × Option Val) (y : Val) : String :=
+  triple (match w.2 with
+    | some r => "[1," ++ render r ++ "]"
+    | none => "0") (render w.1) (render y)
+
+def implSwap (x i yv : Val) (yFirst : Bool) : String :=
+  match Index.index x i with
+  | .ok a =>
+    let w := Index.setIndexS x [.index i] (some yv) false
+    triple (if w.2.isDone then "1" else "0") (if w.2 = .corrupted then "corrupted" else render w.1)
+      (render (if w.2.isDone || yFirst then a else yv))
+  | _ => triple "0" (render x) (render yv)
+def specSwap (x i yv : Val) (yFirst : Bool) : String :=
+  match PyIndex.index x i with
+  | .ok a =>
+    let w := PyIndex.setPathS x [.index i] (some yv) false
+    triple (if w.2 then "1" else "0") (render w.1) (render (if w.2 || yFirst then a else yv))
+  | _ => triple "0" (render x) (render yv)
+
 def handle (args : List String) : String :=
   match args with
+  | "tset" :: s :: v :: steps =>
+    match val? s, val? v, steps? steps with
+    | some s, some v, some ixs =>
+      implW (Index.setIndexS s ixs (some v) false) s ++ "\t" ++ specW (PyIndex.setPathS s ixs (some v) false) s
+    | _, _, _ => "bad-op"
+  | "tevery" :: s :: v :: steps =>
+    match val? s, val? v, steps? steps with
+    | some s, some v, some ixs =>
+      implW (Index.setIndexS s ixs (some v) true) s ++ "\t" ++ specW (PyIndex.setPathS s ixs (some v) true) s
+    | _, _, _ => "bad-op"
+  | ["taddat", s, i, d] =>
+    match val? s, val? i, d.toInt? with
+    | some s, some i, some d =>
+      implW (Index.opAssignAddS s i d) s ++ "\t" ++ specW (PyIndex.addAtS s i d) s
+    | _, _, _ => "bad-op"
+  | "tpopp" :: s :: steps =>
+    match val? s, steps? steps with
+    | some s, some ixs =>
+      resM (Index.modPathS s ixs Index.tryPop) s ++ "\t" ++ resM (PyIndex.atPathS s ixs PyIndex.pop) s
+    | _, _ => "bad-op"
+  | "trmip" :: s :: i :: steps =>
+    match val? s, val? i, steps? steps with
+    | some s, some i, some ixs =>
+      resM (Index.modPathS s ixs fun v => Index.tryRemoveIndex v i) s ++ "\t"
+        ++ resM (PyIndex.atPathS s ixs fun v => PyIndex.removeIndex v i) s
+    | _, _, _ => "bad-op"
+  | ["tswap", s, i, yv] =>
+    match val? s, val? i, val? yv with
+    | some s, some i, some yv => implSwap s i yv false ++ "\t" ++ specSwap s i yv false
+    | _, _, _ => "bad-op"
+  | ["tswap2", s, i, yv] =>
+    match val? s, val? i, val? yv with
+    | some s, some i, some yv => implSwap s i yv true ++ "\t" ++ specSwap s i yv true
+    | _, _, _ => "bad-op"
   | ["idx", s, i] =>
     match val? s, val? i with
     | some s, some i => both (Index.index s i) (PyIndex.index s i)
